@@ -929,6 +929,36 @@ fn c10_sig(text: &str) -> Option<String> {
 pub fn minimize_c10(text: &str) -> (String, String) {
     install_panic_hook();
     let class = |s: &Option<String>| s.as_ref().map(|s| s.split(':').next().unwrap().to_string());
+    minimize_text(text, &mut |t| class(&c10_sig(t)))
+}
+
+/// Signature of a C09 failure of `text`, if any.
+pub fn c09_sig(text: &str, sem: &mut SemanticStage) -> Option<String> {
+    match guarded(|| syntax_stages(text)) {
+        Ok(Ok(_)) => {}
+        Ok(Err(e)) => return Some(format!("span:{}", e.chars().take(30).collect::<String>())),
+        Err((loc, msg)) => return Some(panic_sig(&loc, &msg)),
+    }
+    match sem.run(text, fnv_str(text)) {
+        Ok(_) => None,
+        Err((loc, msg)) if loc == "span" => Some(format!("span:{}", msg.chars().take(30).collect::<String>())),
+        Err((loc, msg)) => Some(panic_sig(&loc, &msg)),
+    }
+}
+
+pub fn minimize_c09(text: &str, starknet: bool) -> (String, String) {
+    install_panic_hook();
+    let mut sem = SemanticStage::new(starknet);
+    minimize_text(text, &mut |t| c09_sig(t, &mut sem))
+}
+
+/// ddmin over characters keeping `sig(text)` equal to the original's.
+pub fn minimize_text(
+    text: &str,
+    sig: &mut dyn FnMut(&str) -> Option<String>,
+) -> (String, String) {
+    let class = |s: &Option<String>| s.clone();
+    let mut c10_sig = |t: &str| sig(t);
     let orig = c10_sig(text);
     let want = class(&orig);
     if want.is_none() {
